@@ -199,7 +199,9 @@ def args_as_given_rule(fi):
     comps = [c for c in comps if isinstance(c.generators[0].target, ast.Name) and
              any(isinstance(x, ast.Name) and x.id == c.generators[0].target.id for x in ast.walk(c.elt)) and
              not (isinstance(c.elt, ast.Call) and isinstance(c.elt.func, ast.Name)) and
-             not isinstance(c.elt, (ast.Compare, ast.BoolOp, ast.UnaryOp))]     # boolean tests over the elements are validation, not forwarding
+             not isinstance(c.elt, (ast.Compare, ast.BoolOp, ast.UnaryOp)) and     # boolean tests over the elements are validation, not forwarding
+             not (isinstance(c.elt, ast.Subscript) and isinstance(c.elt.value, ast.Attribute) and c.elt.value.attr == "shape") and   # extents
+             not (isinstance(c.elt, ast.Attribute) and c.elt.attr in ("shape", "dtype", "device", "ndim"))]
     if not comps:
         return [unrecognised("ARGS-GIVEN", fi, role, "no comprehension that selects from the elements of `args`")]
     out = []
@@ -354,6 +356,26 @@ def args_check(fi, loop, fwd, pm):
                         if o in ("%s.shape[0]" % v, "len(%s)" % v) and any(x is n for x in ast.walk(lp)):
                             found = (n, lp)
     if found is None:
+        # one-sided rejection: a raising test that compares a leading extent derived from `args` with X's by an ORDER comparison only
+        from ..core import named
+        def derived_from_args(e):
+            names = {x.id for x in ast.walk(e) if isinstance(x, ast.Name)}
+            if "args" in names:
+                return True
+            for a_ in walk_no_nested(fi.node):
+                if isinstance(a_, ast.Assign) and any(isinstance(t, ast.Name) and t.id in names for t in a_.targets) and \
+                        any(isinstance(x, ast.Name) and x.id == "args" for x in ast.walk(a_.value)):
+                    return True
+            return False
+        for n in walk_no_nested(fi.node):
+            if isinstance(n, ast.If) and isinstance(n.test, ast.Compare) and len(n.test.ops) == 1 and any(isinstance(b, ast.Raise) for b in n.body) and \
+                    isinstance(n.test.ops[0], (ast.Lt, ast.LtE, ast.Gt, ast.GtE)):
+                sides = [n.test.left, n.test.comparators[0]]
+                xside = [e for e in sides if unparse(e) in ("X.shape[0]", "len(X)")]
+                oside = [e for e in sides if e not in xside]
+                if xside and oside and derived_from_args(oside[0]):
+                    return [named("ARGS-CHECK", fi, role, "`if %s: raise` rejects a leading dimension on ONE side of X's only; an args entry that is %s than X "
+                                  "is accepted" % (unparse(n.test)[:50], "longer" if isinstance(n.test.ops[0], (ast.Lt, ast.LtE)) == (sides[1] is xside[0]) else "shorter"), n)]
         return [violation("ARGS-CHECK", fi, role, "no `if <arg>.shape[0] != X.shape[0]: raise` over every element of args", fi.node)]
     chk, lp = found
     # dominance: the checking loop is a statement executed before the batch loop on every path with args not None
